@@ -38,7 +38,8 @@ THEOREMS = [
     # aggregation paths
     "rowpath_eq_spec", "simpleagg_eq_hashagg_nokeys_sum_partial", "simpleagg_eq_hashagg_nokeys_sum_unsound",
     "simpleagg_eq_hashagg_nokeys_first_unsound",
-    "simpleagg_is_chunkpath", "sortagg_nokeys_is_rowpath",
+    "simpleagg_is_chunkpath", "sortagg_nokeys_is_rowpath", "maxVal_assoc", "minVal_assoc", "chunkpath_eq_spec",
+    "simpleagg_eq_hashagg_nokeys",
     "hashagg_groupwise", "hashagg_eq_spec_partial", "sortagg_one_run", "hashagg_eq_sortagg_one_run",
     # merge join
     "groupByKeys_eq_runs", "groupByKeys_empty_keys", "mergejoin_groups_sorted", "merge_eq_hash_empty_keys_unsound",
